@@ -19,6 +19,7 @@ package rules
 //	                        bytes, secret from the key store (ok), accept only on presented == recomputed (E1)
 //	R-C06-5  c06_basic.go   user:password separated at the first colon only
 //	R-C06-6  c06_signer.go  Verify accepts only inside the TTL window and before the presign expiry (E1)
+//	R-C06-7  c06_header.go  header rules: the configured name is canonicalised before it indexes the header map
 //
 // Everything below was actually run in /tmp/vw/C06/repo (scripts in /tmp/vw/C06/mut). Mutants of the
 // signer/validator were applied on top of the two proposed fixes so that the checker's exit code
@@ -88,6 +89,17 @@ package rules
 //	PE1  basicauth.go  (preserving) slices/conversions through locals, strings.Cut inline, TrimSpace only in a condition, ToLower only in a log → silent
 //	PE2  basicauth.go  (preserving) req.Std().BasicAuth()                                 → silent
 //
+// Fourth pass (round-3 seeded change b, missed before, now caught by the new rule R-C06-7, c06_header.go):
+//
+//	round-3 b httpheader.go  GetAll no longer calls textproto.CanonicalMIMEHeaderKey       → R-C06-7 configured header name is canonicalised
+//	H2   httpheader.go  GetAll lower-cases the key instead                               → same
+//	H3   validator.go   Validate indexes h.Std()[key]                                    → same (site in Validate)
+//	H4   validator.go   Validate indexes h.h[name] through a local and comma-ok           → same
+//	HE1  httpheader.go  (preserving) GetAll returns h.h.Values(key)                       → silent
+//	HE2  httpheader.go  (preserving) http.CanonicalHeaderKey into a local, comma-ok index  → silent
+//	HE3  validator.go   (preserving) h.Std()[textproto.CanonicalMIMEHeaderKey(key)]        → silent
+//	HE4  both files     (preserving) canonicalised in Validate, plain index in GetAll      → silent
+//
 // Not caught (outside the decided clauses, see NotDecided): N1 verify rebuilds the canonical headers from
 // empty values; N2 getCanonicalQuery keeps only the first value of every parameter (both are caught by the
 // signer's known-answer tests).
@@ -140,6 +152,7 @@ func c06(c *core.Ctx) string {
 	c.Rule("R-C06-4", "signature covers the parts: hashCanonicalRequest feeds method, path (in its wire/escaped form, never the decoded URL.Path), query, canonical headers, signed-header list and body hash into the digest; on verify the query comes from the request URL and the body hash never from a request header; Verify accepts only when the presented signature equals the one recomputed by sign")
 	c.Rule("R-C06-5", "Basic credentials are split at the first colon only (RFC 7617: the password may contain ':'), never by a full split whose tail is dropped; the user and password handed to the credential lookup are pieces of exactly the base64-decoded credential string (no trimming, case folding, replacing or other string transformation between the decoder and the lookup)")
 	c.Rule("R-C06-6", "TTL window: Signer.Verify accepts only if (ttl disabled or -ttl <= age <= ttl) and (not presigned or age <= expire time)")
+	c.Rule("R-C06-7", "header rules are matched case-insensitively: on the chain from the configured header-rule name to the lookup, a direct index of the http.Header map is preceded by textproto.CanonicalMIMEHeaderKey / http.CanonicalHeaderKey (or the canonicalising Header methods are used)")
 	c.NotDecided = []string{
 		"cryptographic correctness of HMAC/SHA-256 and of the third-party jwt library (exp/nbf checks, signature check)",
 		"canonicalisation details: URI escaping, header folding, query encoding, host normalisation; that the signed-header list chosen by the client covers any particular header",
@@ -154,6 +167,7 @@ func c06(c *core.Ctx) string {
 	c06Body(c)
 	c06Signer(c)
 	c06Basic(c)
+	c06HeaderRules(c)
 	return "Static necessary conditions of the Validator filter: path-sensitive decision table of Validator.Handle (admit only if every configured method passed, reject only on a failure and with 400/401 + declared result), algorithm pinning of every jwt key function, program-wide SSA taint rule that the drained std body of an httpprot.Request is never read or replaced outside httpprot (what the signature must bind is the payload), structural coverage of the canonical request and path-sensitive acceptance conditions of Signer.Verify (signature equality after recomputation, TTL window, presign expiry), first-colon split of Basic credentials. Not decided: cryptography, canonicalisation details, third-party jwt/htpasswd behaviour, OAuth2 introspection."
 }
 
